@@ -134,4 +134,15 @@ theorem tie_conversion_copies_caps : C16.convCapAssigns = [(1, 1), (2, 2), (3, 3
     total, and nothing else in cmd/koord-descheduler/app names them (`configCaps`) -/
 theorem tie_setup_limiter_args : C16.setupLimiterArgs = [1, 2, 3] ∧ C16.appCapMentions = 3 := by decide
 
+/-- the arbitration limits of MigrationControllerArgs: no code of package v1alpha2 outside the generated files names
+    MaxMigratingGlobally / PerNamespace / PerWorkload, MaxUnavailablePerWorkload, SkipEvictionGates or SkipCheckExpectedReplicas;
+    MaxMigratingPerNode is named only by `if obj.MaxMigratingPerNode == nil { obj.MaxMigratingPerNode = &defaultMaxMigratingPerNode }`,
+    whose constant is the model's; the generated conversion copies each of the seven fields to the field of the same name:
+    the model's `defaultArbCfg` (`arb_limits_roundtrip_config`) -/
+theorem tie_args_defaults_and_conversion :
+    C16.argsLimitMentions = [0, 2, 0, 0, 0, 0, 0] ∧ C16.argsPerNodeDefaultShape = true ∧
+    C16.argsDefaultMaxMigratingPerNode = defaultMaxMigratingPerNode ∧
+    (C16.argsConvAssigns.all (fun e => e.1 == e.2) &&
+      [1, 2, 3, 4, 5, 6, 7].all (fun c => C16.argsConvAssigns.any (fun e => e.1 == c))) = true := by decide
+
 end KoordVerif.C16
